@@ -134,6 +134,9 @@ type C03WireCase struct {
 	Sizes    []int  `json:"sizes"`
 	PauseMS  []int  `json:"pause_ms"`
 	Clean    bool   `json:"clean"`
+	// Early (io only): the client starts sending its output with the request,
+	// without waiting to see that the shell is attached (as a real shell does).
+	Early bool `json:"early,omitempty"`
 }
 
 func runC03Wire(c C03WireCase) (key, what string) {
@@ -152,8 +155,10 @@ func runC03Wire(c C03WireCase) (key, what string) {
 		}
 		defer ioc.Close()
 		oc = ioc.OutClient
-		if _, ok := s.WaitLine(Wait, from, "Shell is ready"); !ok {
-			return "HARNESS", "io shell not ready"
+		if !c.Early {
+			if _, ok := s.WaitLine(Wait, from, "Shell is ready"); !ok {
+				return "HARNESS", "io shell not ready"
+			}
 		}
 	} else {
 		// attach an input first so that the output stream "ends by itself while attached"
@@ -258,6 +263,7 @@ func TestC03Wire(t *testing.T) {
 	ev.RapidChecks(ev.Scale(60, 2000))
 	rapid.Check(t, func(rt *rapid.T) {
 		c := C03WireCase{Endpoint: rapid.SampledFrom([]string{"o", "io"}).Draw(rt, "endpoint"), Clean: rapid.IntRange(0, 3).Draw(rt, "clean") != 0}
+		c.Early = c.Endpoint == "io" && rapid.Bool().Draw(rt, "early")
 		for i := rapid.IntRange(1, 12).Draw(rt, "nchunks"); i > 0; i-- {
 			c.Sizes = append(c.Sizes, rapid.SampledFrom([]int{1, 2, 10, 100, 2047, 2048, 2049, 5000, 20000, 70000}).Draw(rt, "size"))
 			c.PauseMS = append(c.PauseMS, rapid.SampledFrom([]int{0, 0, 0, 1, 5, 20}).Draw(rt, "pause"))
